@@ -570,7 +570,7 @@ class State:
         s.arrlog = list(self.arrlog) if getattr(self, "arrlog", None) is not None else None
         s.sandbox_fresh = self.sandbox_fresh
         s.infeasible = self.infeasible
-        for extra in ("mask_counts", "np_special_sums", "np_reductions"):
+        for extra in ("mask_counts", "np_special_sums", "np_reductions", "xref_calls"):
             if hasattr(self, extra):
                 v = getattr(self, extra)
                 setattr(s, extra, dict(v) if isinstance(v, dict) else (list(v) if isinstance(v, list) else v))
